@@ -57,32 +57,64 @@ func latencyKey(c *core.Ctx, crcFn *core.Fn) {
 	var slotVar *ast.Ident
 	nslot := 0
 	ast.Inspect(fn.Decl.Body, func(n ast.Node) bool {
-		if as, ok := n.(*ast.AssignStmt); ok && len(as.Lhs) == 1 && len(as.Rhs) == 1 {
-			if cd := slotOf(as.Rhs[0], 0); cd != nil {
-				if id, ok := as.Lhs[0].(*ast.Ident); ok {
-					slotVar, cand = id, cd
-					nslot++
+		switch as := n.(type) {
+		case *ast.AssignStmt:
+			for i, l := range as.Lhs {
+				if r := core.AssignedTo(as, i); r != nil {
+					if cd := slotOf(r, 0); cd != nil {
+						if id, ok := l.(*ast.Ident); ok {
+							slotVar, cand = id, cd
+							nslot++
+						}
+					}
+				}
+			}
+		case *ast.ValueSpec:
+			for i, nm := range as.Names {
+				if len(as.Values) == len(as.Names) {
+					if cd := slotOf(as.Values[i], 0); cd != nil {
+						slotVar, cand = nm, cd
+						nslot++
+					}
 				}
 			}
 		}
 		return true
 	})
+	if slotVar == nil && latencyByClosure(c, fn, params, slotOf) {
+		return
+	}
 	if slotVar == nil || nslot != 1 {
 		c.Undecidedf("R5.latency", "findKeyInRange/skeleton", fn.Decl.Pos(), "cannot find the variable holding the candidate's slot (crc16 of the candidate, reduced, here or in a one-line helper)")
 		return
 	}
 	g := cfgq.Of(c.Program, fn)
+	ds := &defs{info: info, body: fn.Decl.Body, g: g}
 	isRet := func(n ast.Node) bool { _, ok := n.(*ast.ReturnStmt); return ok }
 	for _, p := range g.Points(isRet) {
 		r := p.Node().(*ast.ReturnStmt)
-		if len(r.Results) == 1 && pat.Same(info, r.Results[0], cand) {
+		var res ast.Expr
+		if len(r.Results) == 1 {
+			res = r.Results[0]
+		} else if fr := fn.Decl.Type.Results; len(r.Results) == 0 && fr != nil && len(fr.List) == 1 && len(fr.List[0].Names) == 1 {
+			// bare return of the named result: its value is what the name holds here
+			if d := ds.defOfAt(info.Defs[fr.List[0].Names[0]], r); d != nil {
+				res = d
+			}
+		}
+		if res != nil && (pat.Same(info, res, cand) || ds.sameValue(res, cand)) {
 			c.Okf("R5.latency", "findKeyInRange/slot-of-returned-key", r.Pos(), "the key returned is the one whose slot was tested (%s)", c.Src(cand))
 		} else {
 			c.Undecidedf("R5.latency", "findKeyInRange/slot-of-returned-key", r.Pos(), "cannot relate the returned key %s to the tested one %s", c.Src(r), c.Src(cand))
 		}
 	}
 	inclusive(c, "R5.latency", "findKeyInRange", g, fn.Decl.Body, slotVar, params[0], params[1], isRet)
-	// the synthetic key has no hash tag, so hashing the whole key is the specification's slot
+	keyPrefixTag(c, fn)
+}
+
+// keyPrefixTag: the synthetic key has no hash tag, so hashing the whole key is the specification's slot.
+func keyPrefixTag(c *core.Ctx, fn *core.Fn) {
+	info := fn.Pkg.TypesInfo
 	if v, ok := fn.Pkg.Types.Scope().Lookup("keyPrefix").(*types.Var); ok {
 		for _, f := range fn.Pkg.Syntax {
 			ast.Inspect(f, func(n ast.Node) bool {
@@ -101,6 +133,84 @@ func latencyKey(c *core.Ctx, crcFn *core.Fn) {
 			})
 		}
 	}
+}
+
+// latencyByClosure handles the range test held in a function literal bound once
+// to a local (what is left when a higher-order search helper is expanded in
+// place): `accept := func(slot int) bool { return min <= slot && slot <= max }`
+// ... `if accept(<slot of key>) { return key }`. The bounds are judged inside
+// the literal, the search on the facts about the literal's verdict.
+func latencyByClosure(c *core.Ctx, fn *core.Fn, params []*ast.Ident, slotOf func(ast.Expr, int) ast.Expr) bool {
+	info := fn.Pkg.TypesInfo
+	var call *ast.CallExpr
+	var lit *ast.FuncLit
+	var cand ast.Expr
+	n := 0
+	ast.Inspect(fn.Decl.Body, func(m ast.Node) bool {
+		cl, ok := m.(*ast.CallExpr)
+		if !ok || len(cl.Args) != 1 {
+			return true
+		}
+		o := objOf(info, cl.Fun)
+		if _, isVar := o.(*types.Var); !isVar {
+			return true
+		}
+		rhs, other := defsOf(info, fn.Decl.Body, o)
+		if len(rhs) != 1 || other != 0 || rhs[0] == nil {
+			return true
+		}
+		fl, isLit := ast.Unparen(rhs[0]).(*ast.FuncLit)
+		if !isLit || len(fl.Type.Params.List) != 1 || len(fl.Type.Params.List[0].Names) != 1 {
+			return true
+		}
+		if cd := slotOf(cl.Args[0], 0); cd != nil {
+			call, lit, cand = cl, fl, cd
+			n++
+		}
+		return true
+	})
+	if n != 1 {
+		return false
+	}
+	for _, p := range params { // the literal reads the bounds when it runs: they must still be the parameters' values
+		if rhs, other := defsOf(info, fn.Decl.Body, info.Defs[p]); len(rhs) != 0 || other != 0 {
+			return false
+		}
+	}
+	g := cfgq.Of(c.Program, fn)
+	isRet := func(n ast.Node) bool { _, ok := n.(*ast.ReturnStmt); return ok }
+	said := func(val bool) func(cfgq.Fact) bool {
+		return func(f cfgq.Fact) bool { return ast.Unparen(f.Expr) == ast.Expr(call) && f.Val == val }
+	}
+	for _, p := range g.Points(isRet) {
+		r := p.Node().(*ast.ReturnStmt)
+		if len(r.Results) == 1 && pat.Same(info, r.Results[0], cand) {
+			c.Okf("R5.latency", "findKeyInRange/slot-of-returned-key", r.Pos(), "the key returned is the one whose slot was tested (%s)", c.Src(cand))
+		} else {
+			c.Undecidedf("R5.latency", "findKeyInRange/slot-of-returned-key", r.Pos(), "cannot relate the returned key %s to the tested one %s", c.Src(r), c.Src(cand))
+		}
+		yes, _ := onlyVia(g, p, said(true))
+		no, w := onlyVia(g, p, said(false))
+		switch {
+		case yes:
+			c.Okf("R5.latency", "findKeyInRange/accept-iff-predicate", r.Pos(), "a key is returned only when the range predicate accepted its slot")
+		case no:
+			c.Check("R5.latency", "findKeyInRange/accept-iff-predicate", r.Pos(), false, "a key is returned exactly when the range predicate REJECTED its slot: the probe key lands on another shard than the one it is meant to measure", w...)
+		default:
+			c.Undecidedf("R5.latency", "findKeyInRange/accept-iff-predicate", r.Pos(), "cannot see that the key is returned only when the range predicate holds for its slot")
+		}
+	}
+	gl := cfgq.OfLit(c.Program, info, lit)
+	inclusive(c, "R5.latency", "findKeyInRange", gl, lit.Body, lit.Type.Params.List[0].Names[0], params[0], params[1], func(n ast.Node) bool {
+		r, ok := n.(*ast.ReturnStmt)
+		if !ok || len(r.Results) != 1 {
+			return false
+		}
+		tv := info.Types[r.Results[0]]
+		return tv.Value == nil || isTrue(info, r.Results[0])
+	})
+	keyPrefixTag(c, fn)
+	return true
 }
 
 // methodJudge handles a range predicate given as a method value, e.g.
